@@ -10,6 +10,16 @@ def check(c):
     n = 4 if thorough else 1
     shards = [["-mode", "universe", "-configs", "12" if thorough else "9"] + (["-big"] if thorough else []) for _ in range(n)]
     tot = servelib.run_serve(c, "C11", shards, "dispatch / pass-through violated")
+    # ... also while Reconfigure / SetDebug / Config run (S): a request must still be answered by the middleware or reach the
+    # handler - in the request x writer scenarios under every schedule, a panic or a blocked thread is a C11 violation
+    import json
+    import conclib
+    c.instrument_mutexes()
+    gated = c.build_driver(tags=["verifgates"], name="driver_gates")
+    t4, s4 = c.path("c11sched.ndjson"), c.path("c11sched.json")
+    c.run_driver(["c07", "-trace", t4, "-out", s4, "-limit", "1000" if thorough else "200", "-scenarios", "40" if thorough else "22"], driver=gated)
+    conclib.validate(c, t4, "TraceMiddleware_c11", only=lambda why, sched: "panic" in why or "blocked" in why)
+    c.cov["scheduled_executions"] = json.load(open(s4))["schedules"]
     if tot["a"] == 0 or tot["b"] == 0:
         raise Infra("vacuous C11 run: %r" % tot)
     c.cov["distinct_nontrivial"] = tot["a"] + tot["b"]
